@@ -1,7 +1,120 @@
 import Driver.Util
-/-! Line-protocol driver for C17 (not built yet). -/
+import GqlgenVerif.Model.Naming
+/-! Line-protocol driver for C17: the naming model on the harness's cases. Text travels as hex of UTF-8;
+the model works on code points (the harness sends ASCII, type identifiers are returned as code points
+re-encoded to UTF-8). -/
+open GqlgenVerif GqlgenVerif.Naming
 namespace Driver.C17
-def step (_line : String) : String := "bad-op"
+
+def ofHex (h : String) : Option Name := unhex h
+
+/-- code points -> UTF-8 hex -/
+def toHex (n : Name) : String := hex (bytesOf (String.ofList (n.map Char.ofNat)))
+
+/-- hex of UTF-8 -> code points -/
+def cpOfHex (h : String) : Option Name := do
+  let bs ← unhex h
+  let ba := ByteArray.mk (bs.map (·.toUInt8)).toArray
+  let s ← String.fromUTF8? ba
+  pure (s.toList.map Char.toNat)
+
+def hexList (s : String) : Option (List Name) :=
+  if s = "" then some [] else (s.splitOn ",").mapM ofHex
+
+def showWord (w : WordInfo) : String :=
+  s!"{w.wordOffset}:{toHex w.word}:{if w.matchCI then 1 else 0}:{if w.hasCI then 1 else 0}"
+
+partial def parseType : List String → Option GoType
+  | [] => none
+  | "p" :: r => (parseType r).map .pointer
+  | "s" :: r => (parseType r).map .slice
+  | ["m"] => some .map
+  | ["i"] => some .iface
+  | [t] =>
+    let body := (t.drop 1).toString
+    match t.front with
+    | 'b' => (cpOfHex body).map .basic
+    | 'n' =>
+      match body.splitOn "." with
+      | [p, n] => do pure (.named (← cpOfHex p) (← cpOfHex n))
+      | _ => none
+    | _ => none
+  | _ => none
+
+def parseField (s : String) : Option FieldDecl :=
+  match s.splitOn "/" with
+  | [] => none
+  | n :: args => do pure { name := ← ofHex n, args := ← args.mapM ofHex }
+
+def parseDecl (s : String) : Option TypeDecl :=
+  match s.splitOn ":" with
+  | [k, n, impls, fields, values] => do
+    let kind ← (match k with | "i" => some Kind.iface | "m" => some Kind.model | "e" => some Kind.enum | _ => none)
+    let fs ← if fields = "" then some [] else (fields.splitOn ",").mapM parseField
+    pure { kind := kind, name := ← ofHex n, impls := ← hexList impls, fields := fs, values := ← hexList values }
+  | _ => none
+
+def showScope : Scope → String
+  | .pkg => "pkg"
+  | .struct g => s!"struct.{toHex g}"
+  | .resolver t => s!"res.{toHex t}"
+  | .args t f => s!"args.{toHex t}.{toHex f}"
+
+def showEmitted (l : List (Scope × Name)) : String :=
+  ";".intercalate (l.map fun (s, n) => s!"{showScope s}={toHex n}")
+
+/-- first duplicate of a list -/
+def firstDup : List (String × Name) → Option (String × Name)
+  | [] => none
+  | x :: r => if r.contains x then some x else firstDup r
+
+/-- Spec on a list `scope=ident` reported by the implementation: every identifier valid, no scope declares
+one twice -/
+def chkEmit (items : List String) : String :=
+  let parsed := items.filterMap fun it =>
+    match it.splitOn "=" with
+    | [s, h] => (cpOfHex h).map fun n => (s, n)
+    | _ => none
+  if parsed.length != items.length then "bad-op" else
+  match parsed.find? (fun p => !validIdent p.2 || goKeywords.contains p.2) with
+  | some (s, n) => s!"violates:invalid-ident:{s}:{toHex n}"
+  | none =>
+    match firstDup parsed with
+    | some (s, n) => s!"violates:duplicate:{s}:{toHex n}"
+    | none => "ok"
+
+def step (line : String) : String :=
+  match line.splitOn " " with
+  | ["togo", h] => match ofHex h with | some n => toHex (toGo n) | none => "bad-op"
+  | ["priv", h] => match ofHex h with | some n => toHex (toGoPrivate n) | none => "bad-op"
+  | ["walk", h] => match ofHex h with
+    | some n => let ws := walk n; if ws.isEmpty then "-" else ",".intercalate (ws.map showWord)
+    | none => "bad-op"
+  | ["model", p, calls] =>
+    let primary := if p = "P" then toGoPrivate else toGo
+    match (calls.splitOn ";").mapM hexList with
+    | some cs =>
+      let (ns, _) := runCalls primary [] cs
+      ";".intercalate (ns.map fun n => match n with | some x => toHex x | none => "DIVERGES")
+    | none => "bad-op"
+  | ["tid", t] => match parseType (t.splitOn ",") with
+    | some ty => toHex (typeIdentifier ty)
+    | none => "bad-op"
+  | ["emit", ds] =>
+    match (ds.splitOn "|").mapM parseDecl with
+    | some ts => showEmitted (emitted ts)
+    | none => "bad-op"
+  -- Spec verdicts on the implementation's own output
+  | ["chkid", h] => match cpOfHex h with    -- a public identifier: valid and not a keyword
+    | some n => if validIdent n && !goKeywords.contains n then "ok" else "violates:invalid-ident"
+    | none => "violates:invalid-ident"
+  | ["chkemit", l] => chkEmit (l.splitOn ";")
+  | ["chknames", l] =>            -- names handed out for pairwise distinct keys must be pairwise distinct
+    match (l.splitOn ";").mapM cpOfHex with
+    | some ns => if ns.eraseDups.length == ns.length then "ok" else "violates:name-collision"
+    | none => "bad-op"
+  | _ => "bad-op"
+
 end Driver.C17
 
 def main : IO Unit := do
